@@ -10,7 +10,7 @@ CONSTANTS
   EofFastPath = FALSE
 SPECIFICATION Spec
 VIEW View
-INVARIANTS C13_Frames C13_Prefix C13_TerminalLast C13_Progress LogInit
+INVARIANTS C13_Frames C13_Prefix C13_ErrAfterFrames C13_TerminalLast C13_Progress LogInit
 PROPERTIES C13_IoErrSurfaced
 ACTION_CONSTRAINT LogEdge
 CHECK_DEADLOCK FALSE
